@@ -324,7 +324,7 @@ func RunBacklogTeardown(r *chk.Run) {
 // RunScaleKept is the scale half of C08: the handler keeps every transaction and
 // they are read again when the stream has ended.
 func RunScaleKept(r *chk.Run) {
-	RunScale(r, "big-events", "kept-cells", "cap-transactions", "packet-sizes", "big-transaction")
+	RunScale(r, "big-events", "kept-cells", "many-rows", "cap-transactions", "packet-sizes", "big-transaction")
 	RunPartialImages(r)
 	RunKeptMarshal(r)
 	r.Rule("scale half (native, one schedule per execution): histories that are large in one dimension (rows events of 6 KB .. 300 KB, packets of exactly 2^k-1 / 2^k / 2^k+1 bytes and around the sizes at which the driver changes its buffering, transactions with exactly as many events as each capacity a growing slice passes through, 8000 kept rows on one table id, one transaction of 20000 rows events); oracle: every delivered transaction equals the reference when it is delivered and again, unchanged, when the stream has ended")
